@@ -1283,6 +1283,9 @@ class Mps(MatrixProduct):
             if self.evolve_config.ivp_solver != "krylov":
                 coef = 1j
 
+        # the sweep assumes a canonical centre at `qnidx`
+        mps.ensure_left_canonical()
+
         # construct the environment matrix
         # almost half is not used. Not a big deal.
         environ = Environ(mps, mpo)
@@ -1421,6 +1424,9 @@ class Mps(MatrixProduct):
             mps = self.to_complex()
             if self.evolve_config.ivp_solver != "krylov":
                 coef = 1j
+
+        # the sweep assumes a canonical centre at `qnidx`
+        mps.ensure_left_canonical()
 
         # construct the environment matrix
         # almost half is not used. Not a big deal.
